@@ -39,6 +39,19 @@ like a pattern but must NOT be rewritten: another reshape / ravel / pack / index
 move-axis pairs with crossed pairing, equal but distinct objects, containers nested on one side only...), as
 CompositionOperator([...]) and through @, alone and inside a block / scaled: the declared structures of the reduced
 operator vs those implied by the parts, vs eval_shape, vs an actual application, vs an application of the unreduced one.
+
+Axis operators on pytrees whose leaves have DIFFERENT ranks (kinds axes:*): ravel / reshape / move-axis / index / diagonal with
+a destination axis / pack x parameters (axes of both signs and of mixed sign, targets with and without -1, int / slice / array /
+ellipsis entries) x sets of leaf shapes of different ranks in BOTH leaf orders (dict / list / tuple / nested containers, one
+and two leaf dtypes): the axes are normalised per leaf, so an operator may leave one leaf untouched and change another one.
+Each operator alone (declared output structure vs NumPy applied to each leaf), transposed, reduced, and reduced as a part
+(transpose, op.T @ op, op @ op.T, one- and two-operand sums, scalar multiple, block diagonal / column / row, compositions with
+identities and scalar operators on either side): the structures of the reduced operator vs those of the unreduced one, vs
+jax.eval_shape of both, vs an actual application of both.  Constructor calls that must be refused because some leaf has no
+dimension between the two axes (or cannot take the target shape) are part of the stream.  For ravel / reshape / move-axis the
+constructor, the per-leaf output shapes and reduce() are also compared with Model/Axes.v (Ravel_ctor, rv_leaf_shape, reduce1).
+Tables.v (regenerated from the imported package): every operator class resolves out_structure / in_structure / reduce /
+transpose / inverse to the definition the model assumes (no new override).
 """
 from __future__ import annotations
 
@@ -46,6 +59,7 @@ import atexit
 import json
 import math
 import os
+import random
 import subprocess
 import sys
 import warnings
@@ -58,6 +72,8 @@ sys.path.insert(0, str(Path(__file__).parent))
 import algebra as A  # noqa: E402
 import lib  # noqa: E402
 from lib import PropertyCheck, cbool, clist  # noqa: E402
+
+sys.path.insert(0, str(lib.VERIF / 'tools' / 'translate'))
 
 # dtype identifiers of Model/Structs.v dt_of_id (0-6 are those of harness/algebra.py)
 A.DTYPES.update({'complex128': 7, 'bfloat16': 8})
@@ -676,6 +692,9 @@ def impl_case(case):
         grid = case.get('grid')
         if grid:
             priv['_gleaves'] = [[int(n) for n in l.shape] for l in jax.tree.leaves(mk_struct(grid['s']))]
+        ax = case.get('axes')
+        if ax:
+            priv['_axins'] = [[int(n) for n in l.shape] for l in jax.tree.leaves(mk_struct(ax['d']['s']))]
         with Config(solver_callback=A._noop):
             for name, d in case['let']:
                 reason = legal_reason(d, env)
@@ -693,6 +712,8 @@ def impl_case(case):
                         # a refusal is legitimate (whether it is the RIGHT refusal is decided by the model)
                         obs['illegal'] = reason or 'parameter grid: the constructor may refuse'
                         obs['grid'] = 'rejected:' + type(e).__name__
+                    if ax and name == ax['of'] and axm_wanted(case):
+                        obs['axes'] = 'rejected:' + type(e).__name__
                     return obs, priv
                 if reason is not None:
                     return {'accepted_illegal': reason, 'at': name, 'constructed': type(env[name]).__name__}, priv
@@ -744,6 +765,22 @@ def impl_case(case):
                 obs['ref_actual'] = srepr(as_struct(env[case['rel'][1]].mv(probe_input(sin))))
             except Exception as e:
                 obs['ref_actual'] = 'failed: ' + short(e)
+            if ax:
+                # ... and what tracing the operator it stands for declares and returns
+                ref = env[case['rel'][1]]
+                try:
+                    obs['ref_eval'] = [srepr(ref.in_structure()), srepr(jax.eval_shape(ref.mv, ref.in_structure()))]
+                except Exception as e:
+                    obs['ref_eval'] = 'failed: ' + short(e)
+        if ax:
+            part = env[ax['of']]
+            if ax.get('out') is not None:
+                # the output structure of the axis operator itself: NumPy on each leaf vs declared
+                obs['part_ref'] = [srepr(mk_struct(ax['out'])), srepr(part.out_structure())]
+            if axm_wanted(case):
+                shapes = lambda s: [[int(n) for n in l.shape] for l in jax.tree.leaves(s)]  # noqa: E731
+                obs['axes'] = {'rcls': AXM_CLASSES.get(type(op).__name__, type(op).__name__), 'rin': shapes(sin), 'rout': shapes(sout),
+                               'aout': shapes(part.out_structure())}
         enc = Enc(user, scalars)
         try:
             priv['_term'] = enc.term(op)
@@ -1402,6 +1439,254 @@ def pattern_cases(x64, rng, quick):
     return out
 
 
+# ---------------------------------------------------------------------------------------------
+# axis operators (ravel / reshape / move-axis / index / diagonal with a destination axis / pack) on pytrees whose
+# leaves have DIFFERENT ranks, in both leaf orders: the axes are normalised PER LEAF, so one leaf may be left
+# untouched while another one is really changed.  Each operator alone, reduced, transposed-and-reduced and reduced
+# inside a composition / a sum / a block / a scalar multiple; reference: NumPy on each leaf.
+
+
+def axes_ref(d, sh):
+    """NumPy reference for ONE leaf of shape sh: the shape of the result (tuple), 'reject' (the operator must refuse
+    the leaf), 'skip' (outside what is enumerated here: axes out of range), 'noref' (no reference: judged by the
+    generic clauses only)."""
+    sh = tuple(sh)
+    nd = len(sh)
+    k = d['k']
+    z = np.zeros(sh, dtype=np.float32)
+    if k == 'ravel':
+        first, last = d.get('first', 0), d.get('last', -1)
+        if 0 <= last < first or last < first < 0:
+            return 'reject'
+        f, l = (first + nd if first < 0 else first), (last + nd if last < 0 else last)
+        if not (0 <= f < nd and 0 <= l < nd):
+            return 'skip'
+        if f > l:
+            return 'reject'  # "there are no dimensions between first_axis and last_axis to be flattened"
+        return z.reshape(sh[:f] + (-1,) + sh[l + 1:]).shape
+    if k == 'reshape':
+        try:
+            return z.reshape(tuple(d['shape'])).shape
+        except ValueError:
+            return 'reject'
+    if k == 'moveaxis':
+        try:
+            return np.moveaxis(z, A.as_axis(d['src']), A.as_axis(d['dst'])).shape
+        except (ValueError, IndexError):
+            return 'skip'
+    if k == 'index':
+        idx = []
+        for e in d['idx']:
+            if isinstance(e, int):
+                idx.append(e)
+            elif e == '...':
+                idx.append(Ellipsis)
+            elif e == ':':
+                idx.append(slice(None))
+            elif 'slice' in e:
+                idx.append(slice(*e['slice']))
+            elif 'arr' in e:
+                idx.append(np.array(e['arr'], dtype=np.int64))
+            else:
+                return 'noref'
+        try:
+            return z[tuple(idx)].shape
+        except IndexError:
+            return 'skip'
+    if k == 'pack':
+        m = np.array(d['mask'], dtype=bool)
+        if m.ndim > nd or sh[:m.ndim] != m.shape:
+            return 'skip'
+        return z[m].shape
+    if k in ('diag', 'bdiag'):
+        # 1-d values on an axis that exists in the leaf, of the length of that axis or of length 1: the leaf keeps its shape
+        n, a = len(d['v']), d['axis']
+        if np.ndim(d['v']) != 1 or not isinstance(a, int) or not -nd <= a < nd or (n != 1 and sh[a] != n):
+            return 'skip'
+        return sh
+    return 'noref'
+
+
+def map_leaves(desc, shapes):
+    """The structure description `desc` with the leaf shapes replaced, in description order, by `shapes` (iterator)."""
+    if isinstance(desc, dict) and 'shape' in desc:
+        return {'shape': [int(n) for n in next(shapes)], 'dtype': desc['dtype']}
+    (kind, kids), = desc.items()
+    if kind == 'dict':
+        return {'dict': {k: map_leaves(v, shapes) for k, v in kids.items()}}
+    return {kind: [map_leaves(v, shapes) for v in kids]}
+
+
+def desc_leaves(desc):
+    """Leaf shapes of a structure description, in description order."""
+    if isinstance(desc, dict) and 'shape' in desc:
+        return [tuple(desc['shape'])]
+    (kind, kids), = desc.items()
+    return [s for v in (kids.values() if kind == 'dict' else kids) for s in desc_leaves(v)]
+
+
+def ranked_tree(shapes, container, dts):
+    """A pytree description with the given leaf shapes, in this order (dict keys are in alphabetical order, which
+    is the flattening order of jax), leaf i of dtype dts[i % len(dts)]."""
+    leaves = [S(list(sh), dts[i % len(dts)]) for i, sh in enumerate(shapes)]
+    if container == 'dict':
+        return {'dict': {'abcdef'[i]: l for i, l in enumerate(leaves)}}
+    if container == 'tuple':
+        return {'tuple': leaves}
+    if container == 'nested' and len(leaves) >= 2:
+        return {'tuple': [leaves[0], {'dict': {'pqrst'[i]: l for i, l in enumerate(leaves[1:])}}]}
+    return {'list': leaves}
+
+
+RAVEL_AXES = [(0, -1), (1, -1), (-2, 1), (0, 0), (-1, -1), (0, 1), (-2, -1), (1, 1), (-1, 0), (-2, 0), (1, -2), (1, 0)]
+AXES_FAMILIES = [
+    # (class, parameters, sets of leaf shapes of different ranks)
+    ('ravel', [{'first': f, 'last': l} for f, l in RAVEL_AXES],
+     [[(4,), (2, 3)], [(5, 2), (5, 3, 2)], [(3, 2), (2, 3, 2)], [(3,), (2, 3), (2, 1, 2)]]),
+    ('reshape', [{'shape': list(s)} for s in ((6,), (-1,), (2, 3), (3, -1), (1, 6), (-1, 1, 2), (4,))],
+     [[(6,), (2, 3)], [(2, 3), (3, 1, 2)], [(6,), (1, 6), (3, 2)]]),
+    ('moveaxis', [{'src': s, 'dst': t} for s, t in ((0, -1), (-1, 0), (0, 1), (1, 0), (-1, -2), ([0, 1], [1, 0]), ([0, -1], [-1, 0]), (0, 0), (-1, -1))],
+     [[(3,), (2, 3)], [(2, 2), (2, 3, 2)], [(2, 3), (2, 3, 2)], [(3,), (3, 2), (2, 1, 3)]]),
+    ('index', [{'idx': i, 'tuple': True} for i in (
+        [{'slice': [0, 4, None]}], [':'], ['...', ':'], ['...', {'slice': [0, 3, None]}], [1], ['...', 1], ['...', {'arr': [2, 0, 2, 1]}],
+        [{'arr': [1, 1, 0]}], [':', '...'], ['...', {'slice': [None, None, 2]}], [{'slice': [1, None, None]}, '...'])],
+     [[(4,), (5, 3)], [(3,), (2, 3)], [(4, 3), (2,)], [(3,), (4, 3), (2, 2, 3)]]),
+    ('diag', [{'v': [1, 2, 3], 'axis': a} for a in (-1, 0)] + [{'v': [2], 'axis': a} for a in (-1, 0, -2, 1)],
+     [[(3,), (2, 3)], [(3,), (3, 2)], [(3, 1), (3,)]]),
+    ('bdiag', [{'v': [1, 2, 3], 'axis': a} for a in (-1, 0)] + [{'v': [2], 'axis': a} for a in (-1, 0)],
+     [[(3,), (2, 3)], [(3,), (3, 2)]]),
+    ('pack', [{'mask': [True, False, True]}, {'mask': [True, True, True]}],
+     [[(3,), (3, 2)], [(3, 2, 2), (3,)]]),
+]
+AXES_CONTAINERS = ('dict', 'list', 'tuple', 'nested')
+AXM_CLASSES = {'IdentityOperator': 0, 'MoveAxisOperator': 1, 'RavelOperator': 2, 'ReshapeOperator': 3, 'ReshapeTransposeOperator': 4, 'CompositionOperator': 5}
+
+
+def axes_ops(dts):
+    """Every (class, parameters) x leaf-shape set x both leaf orders (the container kind rotates):
+    (label, description, input structure, expected output structure or 'reject' or None, core) - core: the operator
+    leaves some leaf untouched and changes another one."""
+    out = []
+    n = 0
+    for k, params, shape_sets in AXES_FAMILIES:
+        for shapes in shape_sets:
+            for order in (list(shapes), list(reversed(shapes))):
+                for p in params:
+                    n += 1
+                    si = ranked_tree(order, AXES_CONTAINERS[n % len(AXES_CONTAINERS)], dts)
+                    d = {'k': k, **p, 's': si}
+                    if k in ('diag', 'bdiag'):
+                        d['pdt'] = dts[-1]  # values as narrow as the narrowest leaf: inside the guard, every leaf keeps its dtype
+                    ins = desc_leaves(si)   # description order is the flattening order (dict keys are sorted)
+                    refs = [axes_ref(d, sh) for sh in ins]
+                    if 'skip' in refs:
+                        continue
+                    label = f'{k}{json.dumps(p, separators=(",", ":"))}@{"+".join("x".join(map(str, s)) or "scalar" for s in order)}'
+                    if 'reject' in refs:
+                        out.append((label, d, si, 'reject', True))
+                        continue
+                    if 'noref' in refs:
+                        out.append((label, d, si, None, True))
+                        continue
+                    so = map_leaves(si, iter(refs))
+                    same = [tuple(r) == tuple(s) for r, s in zip(refs, ins)]
+                    out.append((label, d, si, so, any(same) and not all(same)))
+    return out
+
+
+def axes_contexts(d, si, so, floaty):
+    """The operator alone, reduced, and reduced as a part: (context, let entries, operator name, rel, cont)."""
+    a = ('a', d)
+    E = lambda n, e: (n, {'k': 'expr', 'e': e})  # noqa: E731
+    R = lambda n: E('r', {'reduce': n})          # noqa: E731
+    yield 'leaf', [a], 'a', None, None
+    yield 'reduce', [a, R('a')], 'r', ['same', 'a'], None
+    if floaty:
+        yield 'T', [a, E('r', {'T': 'a'})], 'r', ['T', 'a'], None
+        yield 'T-reduce', [a, E('t', {'T': 'a'}), R('t')], 'r', ['same', 't'], None
+        yield 'TA-reduce', [a, E('c', {'mm': [{'T': 'a'}, 'a']}), R('c')], 'r', ['same', 'c'], None
+        yield 'AT-reduce', [a, E('c', {'mm': ['a', {'T': 'a'}]}), R('c')], 'r', ['same', 'c'], None
+    yield 'sum1-reduce', [a, E('s', {'sum': ['a']}), R('s')], 'r', ['same', 's'], None
+    yield 'sum-reduce', [a, E('s', {'add': ['a', 'a']}), R('s')], 'r', ['same', 's'], None
+    yield 'scaled-reduce', [a, E('t', {'smul': [2, 'a']}), R('t')], 'r', ['same', 't'], None
+    for kind, cont in (('bdiagop', {'dict': {'x': 'a', 'y': 'a'}}), ('col', ['a', 'a']), ('row', {'tuple': ['a', 'a']}), ('bdiagop', ['a'])):
+        yield f'block-{kind}-reduce', [a, ('b', {'k': kind, 'blocks': cont}), R('b')], 'r', ['same', 'b'], None
+    hi = ('hi', {'k': 'homoth', 'v': 2, 's': si})
+    ii = ('ii', {'k': 'ident', 's': si})
+    yield 'comp-hr-reduce', [a, hi, E('c', {'mm': ['a', 'hi']}), R('c')], 'r', ['same', 'c'], None
+    if so is not None:  # operators on the (NumPy-computed) output structure
+        ho = ('ho', {'k': 'homoth', 'v': 2, 's': so})
+        io = ('io', {'k': 'ident', 's': so})
+        yield 'comp-hl-reduce', [a, ho, E('c', {'mm': ['ho', 'a']}), R('c')], 'r', ['same', 'c'], None
+        yield 'comp-id-reduce', [a, ii, io, E('c', {'comp': ['io', 'a', 'ii']}), R('c')], 'r', ['same', 'c'], None
+        yield 'comp-hh-reduce', [a, hi, ho, E('c', {'comp': ['ho', 'a', 'hi']}), R('c')], 'r', ['same', 'c'], None
+        yield 'sum-comp-reduce', [a, ho, E('s', {'add': ['a', {'mm': ['ho', 'a']}]}), R('s')], 'r', ['same', 's'], None
+
+
+def axes_cases(x64, rng, quick):
+    """Quick tier, driver's 64-bit mode, one dtype: every core operator (one leaf untouched, another one changed) alone and
+    reduced; the core ravel operators in every context, the other core operators in 3 contexts drawn at random; the
+    remaining operators, the mixed-dtype pytrees and the other 64-bit mode sampled.  Thorough tier: everything in the
+    first configuration, the other three configurations sampled (1 in 5 operators)."""
+    out = []
+    for dts in ((F32,), (F32, F16)):
+        first = not x64 and len(dts) == 1
+        for label, d, si, so, core in axes_ops(dts):
+            common = {'label': label, 'x64': x64, 'dt': '+'.join(dts), 'pdt': dts[0]}
+            if so == 'reject':
+                if first or rng.random() < (0.1 if quick else 0.2):
+                    out.append({'kind': 'axes:reject', **common, 'let': [('a', d)], 'op': 'a', 'expect': 'reject', 'axes': {'of': 'a', 'd': d}})
+                continue
+            if quick:
+                p_op = (1.0 if core else 0.12) if first else (0.1 if core else 0.02)
+            else:
+                p_op = 1.0 if first else 0.2
+            if rng.random() >= p_op:
+                continue
+            ctxs = list(axes_contexts(d, si, so, floaty=True))
+            if quick and not (first and core and d['k'] == 'ravel'):
+                extra = rng.sample(range(2, len(ctxs)), 3 if (first and core) else 2)
+                ctxs = [c for n, c in enumerate(ctxs) if n < 2 or n in extra]
+            for ctx, let, opn, rel, cont in ctxs:
+                case = {'kind': 'axes:' + ctx, **common, 'let': let, 'op': opn, 'axes': {'of': 'a', 'd': d, 'out': so}}
+                if rel is not None:
+                    case['rel'] = rel
+                if cont is not None:
+                    case['cont'] = cont
+                out.append(case)
+    return out
+
+
+def axm_term(case):
+    """The same operator in Model/Axes.v (the model of the C13 check: constructors, per-leaf axis normalisation,
+    reduce of a non-composite operator): None when the constructor refuses, else the class of the reduced operator,
+    its leaf shapes, and the output leaf shapes of the operator itself."""
+    d = case['axes']['d']
+    ins = clist(case['_axins'], lambda s: clist(s, A.cn))
+    k = d['k']
+    if k == 'ravel':
+        ctor = f'(Axes.bind (Axes.Ravel_ctor 1%N {A.cz(d.get("first", 0))} {A.cz(d.get("last", -1))} {ins}) (fun o => Axes.Ok (Axes.OpRR (Axes.RRavel o))))'
+    elif k == 'reshape':
+        ctor = f'(Axes.bind (Axes.Reshape_ctor 1%N {clist(d["shape"], A.cz)} {ins}) (fun o => Axes.Ok (Axes.OpRR (Axes.RReshape o))))'
+    elif k == 'moveaxis':
+        ax = lambda v: f'(Axes.AInt {A.cz(v)})' if isinstance(v, int) else f'(Axes.ASeq {clist(v, A.cz)})'  # noqa: E731
+        ctor = f'(Axes.bind (Axes.MoveAxis_ctor {ax(d["src"])} {ax(d["dst"])} {ins}) (fun o => Axes.Ok (Axes.OpMove o)))'
+    else:
+        return None
+    return (
+        f'(match {ctor} with Axes.Err _ => None | Axes.Ok a => Some '
+        f'(match Axes.reduce1 a, Axes.out_structure a with '
+        f'| Axes.Ok r, Axes.Ok ao => match Axes.in_structure r, Axes.out_structure r with '
+        f'| Axes.Ok ri, Axes.Ok ro => Some (Axes.class_name r, ri, ro, ao) | _, _ => None end '
+        f'| _, _ => None end) end)'
+    )
+
+
+def axm_wanted(case) -> bool:
+    ax = case.get('axes')
+    return bool(ax) and ax['d']['k'] in ('ravel', 'reshape', 'moveaxis') and case['kind'] in ('axes:reduce', 'axes:reject')
+
+
 REJECTS = [
     # constructor validation: these must be refused
     ('diag-wider-values', [('r', {'k': 'diag', 'v': [[1, 2, 3], [1, 1, 1]], 's': S([3], F32)})]),
@@ -1426,9 +1711,12 @@ REJECTS = [
 
 class Check(PropertyCheck):
     id = 'C05'
-    props = ['C05.v']
-    static_targets = ['theories/Model/Exec.vo', 'theories/Lemmas/StructsL.vo']
-    coq_header = A.COQ_HEADER + 'From Furax Require Import Model.Wf Model.Structs.\n'
+    # Tables.v (shared T-tie, regenerated from the imported package on every run): which definition of out_structure /
+    # in_structure / reduce / transpose / inverse every operator class resolves to is the one the model assumes
+    props = ['Tables.v', 'C05.v']
+    static_targets = ['theories/Model/Exec.vo', 'theories/Lemmas/StructsL.vo', 'theories/Model/Pinned.vo', 'theories/Lemmas/TablesL.vo',
+                      'theories/Model/Axes.vo', 'theories/Lemmas/AxesStructsL.vo']
+    coq_header = A.COQ_HEADER + 'From Furax Require Import Model.Wf Model.Structs.\nFrom Furax Require Model.Axes.\n'
     shard = 100
     workers = 4
     partial = (
@@ -1461,7 +1749,22 @@ class Check(PropertyCheck):
         'kinds pat:* (reduced patterns and near misses) and the dtype corners float16 / bfloat16: the oracle is implementation-side '
         '(structures implied by the parts, jax.eval_shape, an actual application, an application of the unreduced operator); the '
         'model side compares the declared structures / guards / abstract evaluation of the RESULTING object only',
+        'kinds axes:* (axis operators on mixed-rank pytrees): the reference for the output structure of the operator itself is NumPy '
+        'applied to each leaf (reshape / moveaxis / basic and integer-array indexing / boolean mask), computed by the case generator; '
+        'for ravel / reshape / move-axis the constructor, the per-leaf output shapes and reduce() are also compared with Model/Axes.v '
+        '(the model of the C13 check, imported read-only); index / diagonal / pack are compared with Model/Structs.v like every other case',
+        'Props/Tables.v (shared with C01 / C04; tools/translate/tables.py regenerates Gen/Tables.v from the imported furax package, fail '
+        'closed): method_resolution_unchanged pins which definition of out_structure / in_structure / reduce / transpose / inverse each '
+        'operator class resolves to - the "declaration IS jax.eval_shape by construction" item above rests on it',
     ]
+
+    def translate(self):
+        import tables
+
+        self.stats['tables'] = tables.generate(self.gen_dir)
+
+    def gen_files(self):
+        return ['Tables.v']
 
     # -- cases ---------------------------------------------------------------------------------
     def cases(self):
@@ -1496,6 +1799,8 @@ class Check(PropertyCheck):
                 out.append({'kind': 'reject:' + name, 'x64': x64, 'let': let, 'op': let[-1][0], 'expect': 'reject'})
             out += mixed_cases(x64, rng, quick)
             out += pattern_cases(x64, rng, quick)
+            # (own random stream: the sampling of the other classes does not depend on this one)
+            out += axes_cases(x64, random.Random(f'{self.seed}-axes-{x64}'), quick)
             # parameter grids across the accept / reject and the broadcast-into / wider-than boundaries
             if quick:
                 plan = [(F32, F32, 1.0, 0.25, 0.12, 0.3)] if not x64 else [(F64, F32, 0.1, 0.1, 0.03, 0.1), (F32, F64, 0.05, 0.05, 0.02, 0.05), (F32, F32, 0.05, 0.05, 0.02, 0.05)]
@@ -1531,7 +1836,13 @@ class Check(PropertyCheck):
             'f16/bf16/f32/f64/i32/i64, weakly typed JAX scalars); quick tier: Python int and float on the index operator '
             'of {f16+f32} / {f32+f64} exhaustively, the rest sampled. Reduced operators (pat:*): the 53 patterns of '
             'harness/alg_cases.py + 21 more (74, of which 30 near misses that must NOT be rewritten), as CompositionOperator and '
-            'through @, alone / in a block diagonal / scaled, reduced. Non-trivial: the declared output structure '
+            'through @, alone / in a block diagonal / scaled, reduced. Axis operators on mixed-rank pytrees (axes:*): '
+            '{ravel x 12 axis pairs, reshape x 7 targets, move-axis x 9 source/destination pairs, index x 11 index tuples, diagonal / '
+            'broadcast diagonal x destination axes, pack} x 2-4 sets of leaf shapes of different ranks x both leaf orders x '
+            '{dict, list, tuple, nested} x {one dtype, f32+f16} x 18 contexts (alone, .T, reduced, and reduced inside .T, op.T @ op, '
+            'op @ op.T, sums, scalar multiple, block diagonal / column / row, compositions with identity / scalar operators on '
+            'either side) + the constructor calls that must be refused; quick tier: the operators that leave one leaf untouched and '
+            'change another one exhaustively (alone and reduced; ravel in every context), the rest sampled. Non-trivial: the declared output structure '
             'differs from the input structure, or a guard is false, or the constructor refused.'
         )
 
@@ -1555,6 +1866,8 @@ class Check(PropertyCheck):
     def model_term(self, case):
         if case.get('grid') and '_gleaves' in case and '_term' not in case and not case.get('_unsupported'):
             return self.grid_term(case)  # refused by the real constructor: what does the model's constructor say
+        if axm_wanted(case) and '_axins' in case and '_term' not in case and not case.get('_unsupported'):
+            return axm_term(case)  # refused by the real constructor: what does the constructor of Model/Axes.v say
         if case.get('_unsupported') or '_term' not in case:
             return None
         e, info, x64 = case['_term'], case['_info'], cbool(case['x64'])
@@ -1567,6 +1880,8 @@ class Check(PropertyCheck):
         )
         if case.get('grid'):
             return f'({term}, {self.grid_term(case)})'
+        if axm_wanted(case) and '_axins' in case:
+            return f'({term}, {axm_term(case)})'
         return term
 
     @staticmethod
@@ -1585,9 +1900,22 @@ class Check(PropertyCheck):
         axes, outs = g['a'][0]
         return {'axes': [int(a) for a in axes], 'outs': [[int(n) for n in o] for o in outs]}
 
+    @staticmethod
+    def decode_axes(a):
+        if a is None:
+            return 'rejected:ValueError'
+        inner = a['a'][0]
+        if inner is None:
+            return 'the model of the operator fails'
+        rcls, rin, rout, aout = inner['a'][0]
+        sh = lambda ls: [[int(n) for n in l] for l in ls]  # noqa: E731
+        return {'rcls': int(rcls), 'rin': sh(rin), 'rout': sh(rout), 'aout': sh(aout)}
+
     def decode(self, case, v):
         if case.get('grid') and '_term' not in case:
             return {'grid': self.decode_grid(v)}
+        if axm_wanted(case) and '_term' not in case:
+            return {'axes': self.decode_axes(v)}
         wf, pnw, av, ck, sizes, prom, sin, sout, ev, pnw_u, ev_u = v[:11]
         evs = evs_u = None
         if isinstance(ev, dict) and ev.get('c') == 'Some':
@@ -1616,11 +1944,15 @@ class Check(PropertyCheck):
             d['ctor'] = 'not compared: a declared dtype does not exist in this mode'
         if case.get('grid'):
             d['grid'] = self.decode_grid(v[11])
+        if axm_wanted(case):
+            d['axes'] = self.decode_axes(v[11])
         return d
 
     def comparable(self, case, obs):
         if isinstance(obs, dict) and 'grid' in obs and 'in' not in obs:
             return {'grid': obs['grid']}
+        if isinstance(obs, dict) and 'axes' in obs and 'in' not in obs:
+            return {'axes': obs['axes']}
         if not isinstance(obs, dict) or 'in' not in obs:
             return obs
         d = {
@@ -1637,6 +1969,8 @@ class Check(PropertyCheck):
                 d['eval_user'] = 'not compared: composite with parameters wider than the data'
         if 'grid' in obs:
             d['grid'] = obs['grid']
+        if 'axes' in obs:
+            d['axes'] = obs['axes']
         return d
 
     def nontrivial(self, case, obs):
@@ -1687,6 +2021,9 @@ class Check(PropertyCheck):
             st['judged_although_stored_parameters_are_wider'] = st.get('judged_although_stored_parameters_are_wider', 0) + 1
             how = ' [the parameters supplied are no wider than the data; the operator stores wider ones]'
         if inside and obs['avail'] and obs['wf']:
+            pr = obs.get('part_ref')
+            if pr is not None and pr[0] != pr[1]:
+                return f'the axis operator {case["axes"]["d"]} declares the output structure {pr[1]}; NumPy applied to each leaf gives {pr[0]}'
             if obs['eval'] is None:
                 return f'mv cannot be traced on the declared input structure: {obs.get("eval_error")}'
             if obs['eval'] != obs['out']:
@@ -1698,6 +2035,9 @@ class Check(PropertyCheck):
             ra = obs.get('ref_actual')
             if ra is not None and ra != obs['actual']:
                 return f'mv(x) has structure {obs["actual"]} but applying the operator it stands for ({case["rel"][1]}) gives {ra}, x of structure {obs.get("x")}' + how
+            re_ = obs.get('ref_eval')
+            if re_ is not None and re_ != [obs['in'], obs['eval']]:
+                return f'in_structure / jax.eval_shape(mv) {[obs["in"], obs["eval"]]} differ from those of the operator it stands for ({case["rel"][1]}): {re_}' + how
         return None
 
     def extra(self):
